@@ -11,8 +11,8 @@ syndrome == H (sympl.) error, effective_error == logical effect of
 error+correction, codespace <=> zero residual syndrome, success <=> codespace
 and zero effect.  Calibration: sum_script mass(script) (1 - success) must equal
 sum_e P(e) [reference pipeline with a FRESH decoder fails on e] -- an identity
-between two complete sums (checked per shard of consecutive scripts, therefore
-also in total).
+between two complete sums (checked per shard of consecutive scripts with a
+tolerance of 1e-12 x shard mass, therefore within 1e-12 in total).
 
 Part 'structured': the same per-trial oracle (no calibration) on the decoders
 whose smallest code exceeds the full-enumeration bound, over all scripts of
@@ -91,11 +91,13 @@ SHARD = 1024
 TOL = 1e-12
 
 BOUNDS = {
-    'quick': {'n_full': 6, 'noises': NOISES, 'rates': RATES, 'shard': SHARD, 'uf_noises': NOISES,
-              'n_all_noises': 6, 'noises_above': NOISES,
+    'quick': {'n_full': 6, 'noises': NOISES, 'rates': RATES, 'shard': SHARD, 'shard_slow': 256, 'uf_noises': NOISES,
+              'n_all_noises': 5,
+              'noises_above': [('depol', False), ('X.2Y.3Z.5', True), ('pureZ', False), ('pureZ', True),
+                               ('pureX', True)],
               'deformed_code_n': 0, 'structured_weight': 1, 'history_total': 4,
               'history_len': 4, 'seeds': 5, 'seed_trials': 20},
-    'thorough': {'n_full': 8, 'noises': NOISES, 'rates': RATES, 'shard': SHARD, 'n_all_noises': 6,
+    'thorough': {'n_full': 8, 'noises': NOISES, 'rates': RATES, 'shard': SHARD, 'shard_slow': 256, 'n_all_noises': 6,
                  'noises_above': [('depol', False), ('X.2Y.3Z.5', True), ('pureZ', False), ('pureZ', True),
                                   ('pureX', True)],
                  'uf_noises': [('depol', False), ('X.2Y.3Z.5', True), ('pureZ', True)],
@@ -126,7 +128,7 @@ STRUCTURED = {
         ('SweepMatchDecoder', 'Planar3DCode', [2, 2, 2], {}, None),
         ('RotatedSweepMatchDecoder', 'RotatedPlanar3DCode', [2, 2, 2], {}, None),
         ('RotatedSweepMatchDecoder', 'RotatedPlanar3DCode', [3, 3, 3], {}, 1),
-        ('RotatedSweepMatchDecoder', 'RotatedToric3DCode', [2, 2, 2], {}, None),
+        ('RotatedSweepMatchDecoder', 'RotatedToric3DCode', [2, 2, 2], {}, 1),      # 75 ms per trial
         ('UnionFindDecoder', 'Toric2DCode', [2, 2], {}, None),
         ('UnionFindDecoder', 'Toric2DCode', [3, 3], {}, 1),
         ('MatchingDecoder', 'Toric2DCode', [3, 3], {}, None),
@@ -404,11 +406,12 @@ def cases(tier, seed):
                 support = sum(1 for x in DIRECTIONS[direction] if x > 0) + 1
                 total = support ** n
                 for p in b['rates']:
-                    for lo in range(0, total, b['shard']):
+                    shard = b['shard_slow'] if dec == 'UnionFindDecoder' else b['shard']
+                    for lo in range(0, total, shard):
                         trial.append({'part': 'trial', 'cls': cfg['cls'], 'size': cfg['size'],
                                       'deformation': cfg['deformation'], 'decoder': dec, 'params': {},
                                       'direction': direction, 'noise_deformation': nd, 'p': p,
-                                      'lo': lo, 'hi': min(total, lo + b['shard']), 'n': n})
+                                      'lo': lo, 'hi': min(total, lo + shard), 'n': n})
     trial.sort(key=lambda c: (c['n'], c['deformation'] is not None))       # stable: simplest first
     # ---- part 'structured'
     structured = []
@@ -546,8 +549,9 @@ def _eval_trial(case):
         outcomes.add('%s|%s|%d%d|%s' % (case['cls'], case['decoder'][:5], int(bool(success)),
                                         int(bool(r['codespace'])),
                                         ''.join(str(int(x)) for x in np.asarray(r['effective_error']))))
-    n_shards = max(1, -(-env.total // SHARD))
-    tol = TOL / n_shards
+    # tolerance proportional to the mass of the shard: summed over the shards of a configuration the two
+    # complete sums then agree within TOL; the float error of either partial sum is <= ~2n*eps*mass
+    tol = TOL * mass_ref
     if counts.get('rng-consumption'):
         # the environment was not the scripted one: the two sums are not comparable (and the run would not
         # be deterministic); the consumption violation stands for the shard
